@@ -23,7 +23,10 @@ func NewSortedCache(maxSizeBytes uint64) *SortedCache {
 
 func (s *SortedCache) Push(addValue []byte) {
 	s.byteSize += uint64(len(addValue))
-	s.tree.ReplaceOrInsert(addValue)
+	if replaced, ok := s.tree.ReplaceOrInsert(addValue); ok {
+		// The value was already held: only the replacement counts.
+		s.byteSize -= uint64(len(replaced))
+	}
 }
 
 func (s *SortedCache) Pop() (min []byte, ok bool) {
